@@ -1,5 +1,6 @@
 import WK.Model.C10
 import WK.Spec.C10
+import WK.Proofs.C07_Inv
 /-
   C10 — theorems about the committed read path and the retention gate
   (the very functions the driver executes against the real code).
@@ -537,5 +538,64 @@ example : ((syncPage ⟨0, 0, 0, 5, 0⟩ 5 [4]
     (match (readLocal { rows := (List.range 6).map (fun i => mkRow (i + 1) ⟨i + 1, [], [], [1], 1⟩),
                         ck := some ⟨0, 0, 5⟩, ret := some ⟨2, 0, 6⟩ } (syncReq ⟨0, 0, 0, 5, 0⟩ 5) 0 2).2 with
      | .ok r => r | .error _ => ⟨[], 0⟩)).1.map (·.seq)) = [3, 5] := by decide +kernel
+
+/-! ### last round: the judge clause `trimmed-above-requested-boundary` as a model theorem -/
+
+theorem trimPlan_del_sub (rows : List Row) (sp t mm mb : Nat) : ∀ d ∈ (trimPlan rows sp t mm mb).del, d ∈ rows := by
+  intro d hd
+  unfold trimPlan at hd
+  dsimp only at hd
+  split at hd
+  · exact List.mem_of_mem_take hd
+  · exact hd
+
+/-- **c10_trim_only_requested_prefix** (the judge clause `viol:trimmed-above-requested-boundary`): a physical trim
+    through `t` removes only rows with `physical < seq ≤ t`; every other row is still present afterwards. -/
+theorem c10_trim_only_requested_prefix (ch ch' : Chan) (t mm mb : Nat) (o : Nat × Nat × Bool)
+    (h : trimNoAdopt ch t mm mb = (ch', .ok o)) :
+    ∀ r ∈ ch.rows, r ∉ ch'.rows → (retOrZero ch).phys < r.seq ∧ r.seq ≤ t := by
+  unfold trimNoAdopt at h
+  by_cases h0 : t = 0
+  · rw [if_pos h0] at h; simp at h
+  rw [if_neg h0] at h
+  have hz : retOrZero (loadLEO ch).2 = retOrZero ch := by unfold retOrZero; rw [loadLEO_ret]
+  have hrows : (loadLEO ch).2.rows = ch.rows := by unfold loadLEO; cases ch.leoC <;> rfl
+  dsimp only at h
+  rw [hz, hrows] at h
+  by_cases hloc : t > (retOrZero ch).loc
+  · rw [if_pos hloc] at h; simp at h
+  rw [if_neg hloc] at h
+  cases hrd : readForward ch.rows ((retOrZero ch).phys + 1) t (if mm > 0 then mm + 1 else 0) mb with
+  | error e => rw [hrd] at h; simp at h
+  | ok rows =>
+    rw [hrd] at h
+    dsimp only at h
+    have hsub := trimPlan_del_sub rows (retOrZero ch).phys t mm mb
+    generalize trimPlan rows (retOrZero ch).phys t mm mb = p at h hsub
+    by_cases hv : retValid ⟨(retOrZero ch).loc, p.phys,
+        if (loadLEO ch).1 > (retOrZero ch).max then (loadLEO ch).1 else (retOrZero ch).max⟩ = false
+    · rw [if_pos hv] at h; simp at h
+    · rw [if_neg hv] at h
+      simp only [Prod.mk.injEq, Except.ok.injEq] at h
+      obtain ⟨hch, _⟩ := h
+      subst hch
+      intro r hr hnot
+      dsimp only at hnot
+      have : (p.del.any (fun d => decide (d.seq = r.seq))) = true := by
+        cases ha : p.del.any (fun d => decide (d.seq = r.seq)) with
+        | true => rfl
+        | false => exact absurd (List.mem_filter.mpr ⟨hr, by simp [ha]⟩) hnot
+      obtain ⟨d, hd, e⟩ := List.any_eq_true.mp this
+      simp only [decide_eq_true_eq] at e
+      have hdw : d ∈ window ch.rows ((retOrZero ch).phys + 1) t := by
+        unfold readForward at hrd
+        rcases scanGo_subset _ _ _ _ _ _ hrd d (hsub d hd) with x | x
+        · cases x
+        · exact x
+      have := (mem_window _ _ _ _).mp hdw
+      omega
+
+example : (trimNoAdopt { rows := (List.range 4).map (fun i => mkRow (i + 1) ⟨i + 1, [], [], [1], 1⟩),
+                         ret := some ⟨3, 0, 4⟩ } 2 0 0).1.rows.map (·.seq) = [3, 4] := by decide +kernel
 
 end WK.C10
